@@ -1,6 +1,7 @@
 """Configuration of ./check C18 (see pylib/props.py)."""
 CFG = dict(
-        coq=["props/C18.vo"],
+        coq=["props/C18.vo", "props/Compose2.vo"],
+        compose=['Compose_codec_'],
         tie=["gen/Tie_C18.vo"],
         model_vo=["model/DecRun.vo"],
         extract="Ex_C18",
